@@ -169,20 +169,36 @@ def rule_cl_stdout(cx, rep, port='py'):
         raise Undecided('rbql_main missing')
     se = p.func('rbql_main', 'show_error')
     sw = p.func('rbql_main', 'show_warning')
+    from .. import pathsem
     for fd, word, fmt in ((se, 'Error', "'Error [{}]: {}'.format(error_type, error_msg)"), (sw, 'Warning', "'Warning: ' + msg")):
-        top = fd.body[0]
-        ok = isinstance(top, ast.If) and is_name(top.test, 'is_interactive')
-        if not ok:
-            rep.violated(fd.name, fd, '{} no longer separates the interactive from the non-interactive channel'.format(fd.name))
+        flag = fd.args.args[-1].arg
+        ps = pathsem.paths(fd)
+        if ps is None:
+            rep.undecided(fd.name, fd, '{} is not summarisable as paths'.format(fd.name))
             continue
-        non = top.orelse
-        calls = [c for s in non for c in ast.walk(s) if isinstance(c, ast.Call)]
-        prints = [c for c in calls if dotted(c.func) == 'print']
-        eps = [c for c in calls if dotted(c.func) == 'eprint']
-        if prints or len(eps) != 1:
-            rep.violated(fd.name, (prints or [top])[0], 'on the non-interactive path {} prints to stdout: the message is mixed into the table data'.format(fd.name))
+        n_non = 0
+        bad = None
+        fmt_seen = None
+        for q in ps:
+            if q.kind == 'raise':
+                continue
+            def leaf(e):
+                return False if is_name(e, flag) else None       # the non-interactive run
+            if not pathsem.consistent(q, leaf):
+                continue
+            n_non += 1
+            prints = [c for c in q.calls if isinstance(c, ast.Call) and dotted(c.func) in ('print', 'sys.stdout.write')]
+            eps = [c for c in q.calls if isinstance(c, ast.Call) and dotted(c.func) == 'eprint']
+            if prints or len(eps) != 1:
+                bad = q.node if q.node is not None else fd
+                break
+            fmt_seen = eps[0]
+        if not n_non:
+            rep.violated(fd.name, fd, '{} no longer separates the interactive from the non-interactive channel'.format(fd.name))
+        elif bad is not None:
+            rep.violated(fd.name, bad, 'on the non-interactive path {} prints to stdout (or prints nothing to stderr): the message is mixed into the table data'.format(fd.name))
         else:
-            rep.decide(node_text(eps[0].args[0]) == fmt, fd.name, eps[0], 'non-interactive: `{}` on stderr'.format(fmt), 'the non-interactive {} line is `{}` (documented format: {})'.format(word, node_text(eps[0].args[0]), fmt))
+            rep.decide(node_text(fmt_seen.args[0]) == fmt, fd.name, fmt_seen, 'non-interactive: `{}` on stderr'.format(fmt), 'the non-interactive {} line is `{}` (documented format: {})'.format(word, node_text(fmt_seen.args[0]), fmt))
     ep = p.func('rbql_main', 'eprint')
     okp = 'file=sys.stderr' in node_text(ep, 300)
     rep.decide(okp, 'eprint', ep, 'eprint writes to sys.stderr', 'eprint no longer writes to sys.stderr')
@@ -369,6 +385,17 @@ def rule_if_df(cx, rep, port='py'):
     p = cx.py
     fin = p.func('rbql_pandas', 'DataframeWriter.finish')
     calls = [c for c in walk_no_nested(fin) if isinstance(c, ast.Call) and (dotted(c.func) or '').endswith('DataFrame')]
+    if len(calls) > 1:
+        # several constructions: each one that can become the result must carry the header
+        bare = [c for c in calls if not any(k.arg == 'columns' and dotted(k.value) == 'self.header' for k in c.keywords)]
+        if bare:
+            g_ = bare[0]
+            while g_ is not None and not isinstance(g_, ast.If):
+                g_ = getattr(g_, 'parent', None)
+            rep.violated('DataframeWriter.finish', bare[0], 'on the path taken when `{}` the result is built as `{}` without the header the engine set: an empty result loses its column names although the other front-ends still return the header'.format(node_text(g_.test, 60) if g_ is not None else '?', node_text(bare[0], 40)))
+        else:
+            rep.holds('DataframeWriter.finish', calls[0], 'every result frame is built with columns=header ({} constructions)'.format(len(calls)))
+        return
     if len(calls) != 1:
         rep.undecided('DataframeWriter.finish', fin, 'DataFrame construction not found')
         return
@@ -479,6 +506,49 @@ def rule_if_varmap(cx, rep, port):
     from .. import pathsem
     p = cx.port(port)
     n = 0
+    emod = cx.engine_mod(port)
+    memo = {}
+
+    def effects(fname, depth=0):
+        """parsers a helper of the engine module runs on *every* normal path (helpers the adapters call instead of the parsers)"""
+        if fname in POS_PARSERS or fname in NAME_PARSERS:
+            return {fname}
+        if fname in memo:
+            return memo[fname]
+        memo[fname] = set()
+        h = p.func(emod, fname, required=False)
+        if h is None or depth > 3:
+            return set()
+        hps = pathsem.paths(h)
+        if not hps:
+            return set()
+        per_path = []
+        for q in hps:
+            if q.kind == 'raise':
+                continue
+            got = set()
+            exprs = list(q.calls) + [v for v in [q.value] if v is not None] + [v for _, v in q.stores] + list(q.env.values())
+            for e_ in exprs:
+                for x in ast.walk(e_):
+                    if isinstance(x, ast.Call):
+                        got |= effects((call_name(x) or '').split('.')[-1], depth + 1)
+            # any name-based parser counts as "the" name-based registration
+            if got & set(NAME_PARSERS):
+                got |= {'<names>'}
+            per_path.append(got)
+        res = set.intersection(*per_path) if per_path else set()
+        memo[fname] = res
+        return res
+
+    def called(exprs):
+        out = set()
+        for e_ in exprs:
+            for x in ast.walk(e_):
+                if isinstance(x, ast.Call):
+                    out |= effects((call_name(x) or '').split('.')[-1])
+        if out & set(NAME_PARSERS):
+            out |= {'<names>'}
+        return out
     for c in roles.iterators(p):
         ms = roles.methods(c)
         if 'get_variables_map' not in ms or c.name == 'RBQLInputIterator':
@@ -486,7 +556,7 @@ def rule_if_varmap(cx, rep, port):
         fd = ms['get_variables_map']
         key = '{}.{}.get_variables_map'.format(c.modname, c.name)
         calls_all = [x for x in walk_no_nested(fd) if isinstance(x, ast.Call)]
-        name_calls = [x for x in calls_all if (call_name(x) or '').split('.')[-1] in NAME_PARSERS]
+        name_calls = [x for x in calls_all if '<names>' in called([x]) and not any('<names>' in called([y]) for y in ast.walk(x) if isinstance(y, ast.Call) and y is not x)]
         if not name_calls:
             rep.undecided(key, fd, 'no name-based variable parser is called: whether this iterator has column names at all is not decided here')
             continue
@@ -499,9 +569,15 @@ def rule_if_varmap(cx, rep, port):
         sources = {'self.has_header'}
         for x in name_calls:
             nm = (call_name(x) or '').split('.')[-1]
-            arg = x.args[1] if nm == 'map_variables_directly' and len(x.args) > 1 else (x.args[2] if len(x.args) > 2 else None)
-            if arg is not None:
-                sources.add(node_text(arg, 80))
+            if nm in NAME_PARSERS:
+                arg = x.args[1] if nm == 'map_variables_directly' and len(x.args) > 1 else (x.args[2] if len(x.args) > 2 else None)
+                if arg is not None:
+                    sources.add(node_text(arg, 80))
+            else:
+                # a helper: any `self....` argument may be the names
+                for a in x.args:
+                    if (dotted(a) or '').startswith('self.') or (isinstance(a, ast.Call) and (call_name(a) or '').startswith('self.')):
+                        sources.add(node_text(a, 80))
 
         def is_src(e):
             return node_text(e, 80) in sources
@@ -517,10 +593,10 @@ def rule_if_varmap(cx, rep, port):
         for q in ps:
             if q.kind != 'return':
                 continue
-            called = {(call_name(x) or '').split('.')[-1] for x in q.calls if isinstance(x, ast.Call)}
-            if not set(POS_PARSERS) <= called:
+            did = called(list(q.calls) + [v for _, v in q.stores] + list(q.env.values()) + ([q.value] if q.value is not None else []))
+            if not set(POS_PARSERS) <= did:
                 ok_pos = False
-            if called & set(NAME_PARSERS):
+            if '<names>' in did:
                 continue
             if pathsem.consistent(q, leaf):
                 extra = [node_text(t_, 80) for t_, pol in q.conds if pathsem.eval_cond(t_, leaf) is None]
